@@ -3,10 +3,14 @@ line protocol for C03 (core-only):
   search limit= ss= filter=<-|=ids> max= V= N= dq=<id:key,...> hy=<key:bits,...>
       → "ok id:distkey:hybridbits ..." — the model of IndexVamana.Search on the dump of the real graph with
         the real distances of the query (order-preserving image of the float32 bits), or "err <kind>"
+  hyb vamana <weight hex32|-> <dist hex32>
+      → hex32: the hybrid expression generated from vamana.go (`(-1 * dist) * weight`, weight 1 when absent),
+        evaluated with hardware float32 (bit for bit against the real `_hybridScore`)
 -/
 import SemaModel.Base.DriverUtil
 import SemaModel.Base.Bytes
 import SemaModel.C10.Driver
+import SemaModel.C03.HybridGen
 namespace Sema.C03
 open Sema.C10
 
@@ -35,6 +39,12 @@ def step (line : String) : String :=
       (" ".intercalate ("ok" :: hits.map fun h => s!"{h.id}:{h.dist}:{Sema.hexOfNat 8 h.hybrid}"))
     | .error .searchSizeLtK => "err searchSizeLtK"
     | .error _ => "err other"
+  | ["hyb", "vamana", w, d] =>
+    match (if w == "-" then some none else (Sema.natOfHex w).map some), Sema.natOfHex d with
+    | some w, some d =>
+      let r := (hybridGen (w.map fun b => Sema.Go.FExpr.var (BitVec.ofNat 32 b)) (Sema.Go.FExpr.var (BitVec.ofNat 32 d))).eval
+      if r.isNaN then "nan" else Sema.hexOfNat 8 r.toBits.toNat
+    | _, _ => "bad-op"
   | _ => "skip (not a model line)"
 
 end Sema.C03
